@@ -36,9 +36,17 @@ def gen_env(rng, idx, big=False):
             else:
                 L.append(['script', str(k), 'cancel', str(a)])
     now = 0
+    # focused half: few assets and a pause/cancel/unpause-heavy mix, so that one asset holds paused
+    # and pending events at the same moment, goes through several pause cycles, is cancelled while
+    # paused, ... (states the uniform mix reaches too rarely)
+    focus = rng.random() < 0.5
+    if focus:
+        assets = assets[:rng.randint(1, 2)]
     for _ in range(rng.randint(4, 14 if not big else 30)):
         c = rng.random()
         a = rng.choice(assets)
+        if focus:
+            c = {0: 0.0, 1: 0.0, 2: 0.0, 3: 0.52, 4: 0.52, 5: 0.6, 6: 0.6, 7: 0.67, 8: 0.75, 9: 0.9}[rng.randrange(10)]
         if c < 0.5:
             t = rng.choice(times) + (now if rng.random() < 0.6 else 0)
             L.append(['ext', 'sched', str(t), str(a), str(rng.randrange(nscripts)), str(pick_prio(rng))])
@@ -741,7 +749,7 @@ def gen_floor_batch(rng, idx, big=False):
     if c < 0.5:
         g = B.dev('gate', up=str(b1), pred=rng.choice(['always', 'always', 'vge:0', 'qlt:5']))
         prev = [g]
-    if rng.random() < 0.5:
+    if rng.random() < (0.5 if c >= 0.5 else 0.25):        # a gate mostly hands over directly (refusals reach it)
         prev = [B.dev('buffer', up=','.join(map(str, prev)), cap=rng.choice(['inf', '3', '6']), delay=rng.choice([0, 0, 8]))]
     if rng.random() < 0.5:
         prev = [B.dev('batcher', up=','.join(map(str, prev)), bsz=rng.choice(['-', '2', '3']))]
@@ -817,10 +825,13 @@ def gen_floor_groups(rng, idx, big=False):
             paths += [c, d]
             B.dev('sink', up=str(d), cyc=0, collect=1)
     else:
-        m1 = B.dev('processor', cyc=rng.choice([2, 4, 8]), nshut=1, nrest=1)
-        m2 = B.dev('handler', up=str(m1), cyc=rng.choice([0, 4]))
+        # half of the shared cells are entered through a gate, so that the same part meets the same
+        # gate twice (second visit refused while the machine works on the following part)
+        g0 = B.dev('gate', pred='always') if rng.random() < 0.5 else None
+        m1 = B.dev('processor', cyc=rng.choice([2, 4, 8]), nshut=1, nrest=1, up=(str(g0) if g0 is not None else None))
+        m2 = B.dev('handler', up=str(m1), cyc=rng.choice([0, 4])) if g0 is None or rng.random() < 0.5 else None
         procs.append(m1)
-        B.group(0, [m1, m2])
+        B.group(0, [x for x in (g0, m1, m2) if x is not None])
         a = B.dev('gpath', group=0, up=str(s1))
         mid = B.dev(rng.choice(['handler', 'buffer']), up=str(a), cyc=rng.choice([0, 4]))
         b = B.dev('gpath', group=0, up=str(mid))              # re-entrant
